@@ -68,6 +68,7 @@ func minimise(orig *Program, rp *Replay) *Replay {
 		func(c *ExecCfg) { c.SharedDeps = false },
 		func(c *ExecCfg) { c.RealReader = false },
 		func(c *ExecCfg) { c.RealDeps = false },
+		func(c *ExecCfg) { c.SharedBytes = false },
 		func(c *ExecCfg) { c.ListGenerated = false },
 		func(c *ExecCfg) { c.OutHandling = 0 },
 		func(c *ExecCfg) { c.OutHandling &^= 4 },
